@@ -8,7 +8,10 @@ require (
 	github.com/golang/glog v1.2.5
 	github.com/openconfig/gribi v1.9.1
 	github.com/openconfig/gribigo v0.0.0
+	github.com/openconfig/ygot v0.34.0
+	google.golang.org/genproto/googleapis/rpc v0.0.0-20260319201613-d00831a3d3e7
 	google.golang.org/grpc v1.79.3
+	google.golang.org/protobuf v1.36.11
 )
 
 require (
@@ -17,13 +20,11 @@ require (
 	github.com/kylelemons/godebug v1.1.0 // indirect
 	github.com/openconfig/gnmi v0.14.1 // indirect
 	github.com/openconfig/goyang v1.6.3 // indirect
-	github.com/openconfig/ygot v0.34.0 // indirect
+	go.uber.org/atomic v1.11.0 // indirect
 	golang.org/x/exp v0.0.0-20250218142911-aa4b98e5adaa // indirect
 	golang.org/x/net v0.55.0 // indirect
 	golang.org/x/sys v0.45.0 // indirect
 	golang.org/x/text v0.37.0 // indirect
-	google.golang.org/genproto/googleapis/rpc v0.0.0-20260319201613-d00831a3d3e7 // indirect
-	google.golang.org/protobuf v1.36.11 // indirect
 	lukechampine.com/uint128 v1.3.0 // indirect
 )
 
